@@ -7,7 +7,7 @@
    the reading of the comparator (this file) with table = model (Proofs/C06Table.v) and with
    model = specification (Proofs/Binom.v, Proofs/Hyperg.v, Proofs/Choose.v). *)
 From MM Require Import Base.Num Base.GFSum Base.GFComb Model.Choose Model.Binom Model.Hyperg.
-From MM Require Import Proofs.Choose Proofs.Binom Proofs.Hyperg Check.C06 Proofs.C06Table Proofs.CheckBase.
+From MM Require Import Proofs.Choose Proofs.Binom Proofs.Hyperg Check.C06 Proofs.C06Table Proofs.CheckBase Proofs.C06Encl.
 From MM Require Import Spec.C06Prob.
 From Coq Require Import Lqa Lia Qround.
 Local Open Scope Q_scope.
@@ -252,6 +252,204 @@ Proof.
 Qed.
 End Items.
 
+(* ====================== enclosure mode (group hK) ====================== *)
+(* the binomial probabilities are a probability function on 0..n *)
+Lemma bin_prob_nonneg n p k : (0 <= n)%Z -> 0 <= p <= 1 -> 0 <= bin_prob n p k.
+Proof.
+  intros Hn Hp. rewrite bin_prob_model by assumption. rewrite <- (Z2Nat.id n) by assumption.
+  apply binom_pmf_nonneg. assumption.
+Qed.
+Lemma bin_prob_sum n p : (0 <= n)%Z -> Qsum_range (bin_prob n p) 0 n == 1.
+Proof.
+  intros Hn. pose proof (binom_pmf_sums_to_one (Z.to_nat n) p) as H. rewrite Z2Nat.id in H by assumption.
+  rewrite <- H. apply Qsum_range_ext. intros j _. apply bin_prob_model. assumption.
+Qed.
+(* its four atoms *)
+Lemma bin_prob_at n p k : (0 <= k <= n)%Z -> bin_prob n p k = bterm p (1 - p) (Z.to_nat n) (Z.to_nat k).
+Proof.
+  intros Hk. unfold bin_prob. destruct (Z.ltb_spec k 0); [lia|]. destruct (Z.ltb_spec n k); [lia|]. reflexivity.
+Qed.
+Lemma inject_to_nat n : (0 <= n)%Z -> inject_Z (Z.of_nat (Z.to_nat n)) = inject_Z n.
+Proof. intros. rewrite Z2Nat.id by assumption. reflexivity. Qed.
+
+(* P near 0 (m = p): atoms 0 and 1 *)
+Lemma bin_lo_atom0 n p : (1 <= n)%Z -> 0 <= p <= 1 -> 1 - inject_Z n * p <= bin_prob n p 0.
+Proof.
+  intros Hn Hp. rewrite bin_prob_at by lia. change (Z.to_nat 0) with O. rewrite bterm_0.
+  rewrite <- (inject_to_nat n) by lia. apply bernoulli. assumption.
+Qed.
+Lemma bin_lo_atom1 n p : (1 <= n)%Z -> 0 <= p <= 1 -> inject_Z n * p - encl_eps n p <= bin_prob n p 1.
+Proof.
+  intros Hn Hp. rewrite bin_prob_at by lia. change (Z.to_nat 1) with 1%nat. rewrite bterm_1 by lia.
+  rewrite inject_to_nat by lia. apply atom1_lower; assumption.
+Qed.
+(* P near 1 (m = 1 - p): atoms n and n - 1 *)
+Lemma bin_hi_atom0 n p : (1 <= n)%Z -> 0 <= p <= 1 -> 1 - inject_Z n * (1 - p) <= bin_prob n p n.
+Proof.
+  intros Hn Hp. rewrite bin_prob_at by lia. rewrite bterm_n.
+  assert (E : p == 1 - (1 - p)) by ring. rewrite E at 2.
+  rewrite <- (inject_to_nat n) by lia. apply bernoulli. lra.
+Qed.
+Lemma bin_hi_atom1 n p : (1 <= n)%Z -> 0 <= p <= 1 ->
+  inject_Z n * (1 - p) - encl_eps n (1 - p) <= bin_prob n p (n - 1).
+Proof.
+  intros Hn Hp. rewrite bin_prob_at by lia. replace (Z.to_nat (n - 1)) with (Z.to_nat n - 1)%nat by lia.
+  rewrite bterm_pred by lia. rewrite inject_to_nat by lia.
+  pose proof (atom1_lower (1 - p) n ltac:(lra) Hn) as A.
+  assert (E : 1 - (1 - p) == p) by ring. rewrite E in A.
+  assert (E2 : inject_Z n * qpow p (Z.to_nat n - 1) * (1 - p) == inject_Z n * (1 - p) * qpow p (Z.to_nat n - 1)) by ring.
+  rewrite E2. exact A.
+Qed.
+
+Lemma encl_applies_n n m d : encl_applies n m d = true -> (1 <= n)%Z.
+Proof.
+  unfold encl_applies. intro H. apply andb_prop in H. destruct H as [H _]. apply andb_prop in H. destruct H as [H _].
+  apply Z.leb_le in H. exact H.
+Qed.
+
+Section EnclItems.
+Variables (n : Z) (p : Q) (flip : bool).
+Hypothesis Hn : (1 <= n)%Z.
+Hypothesis Hp : 0 <= p <= 1.
+Let m := if flip then 1 - p else p.
+Let pr := bin_prob n p.
+
+Lemma epmf_encl_sound ki : (0 <= ki <= n)%Z ->
+  fst (epmf_encl n m flip ki) <= pr ki /\ pr ki <= snd (epmf_encl n m flip ki).
+Proof.
+  intros Hk. unfold epmf_encl, m, pr. destruct flip.
+  - apply (hi_pmf (bin_prob n p) n (1 - p) Hn); try assumption.
+    + intros k. apply bin_prob_nonneg; [lia|assumption].
+    + apply bin_prob_sum. lia.
+    + apply bin_hi_atom0; assumption.
+    + apply bin_hi_atom1; assumption.
+  - apply (lo_pmf (bin_prob n p) n p Hn); try assumption.
+    + intros k. apply bin_prob_nonneg; [lia|assumption].
+    + apply bin_prob_sum. lia.
+    + apply bin_lo_atom0; assumption.
+    + apply bin_lo_atom1; assumption.
+Qed.
+Lemma ecdf_encl_sound ki : (0 <= ki < n)%Z ->
+  fst (ecdf_encl n m flip ki) <= cdf_sum pr 0 ki /\ cdf_sum pr 0 ki <= snd (ecdf_encl n m flip ki).
+Proof.
+  intros Hk. unfold ecdf_encl, cdf_sum, m, pr. destruct flip.
+  - apply (hi_cdf (bin_prob n p) n (1 - p) Hn); try assumption.
+    + intros k. apply bin_prob_nonneg; [lia|assumption].
+    + apply bin_prob_sum. lia.
+    + apply bin_hi_atom0; assumption.
+    + apply bin_hi_atom1; assumption.
+  - apply (lo_cdf (bin_prob n p) n p Hn); try assumption.
+    + intros k. apply bin_prob_nonneg; [lia|assumption].
+    + apply bin_prob_sum. lia.
+    + apply bin_lo_atom0; assumption.
+    + apply bin_lo_atom1; assumption.
+Qed.
+
+Lemma bin_prob_out ki : (ki < 0 \/ n < ki)%Z -> pr ki == 0.
+Proof.
+  intros Hk. unfold pr, bin_prob. destruct (Z.ltb_spec ki 0); [reflexivity|].
+  destruct (Z.ltb_spec n ki); [reflexivity|lia].
+Qed.
+Lemma bin_cdf_top ki : (n <= ki)%Z -> cdf_sum pr 0 ki == 1.
+Proof.
+  intros Hk. unfold pr. rewrite bin_cdf_model by lia. unfold binom_cdf_i.
+  destruct (Z.ltb_spec ki 0); [lia|]. destruct (Z.leb_spec n ki); [reflexivity|lia].
+Qed.
+
+Lemma epmf_ok_b_sound ki pm : epmf_ok_b n m flip ki pm = true -> pmf_obs_ok pr 0 n ki pm.
+Proof.
+  unfold epmf_ok_b. intro H.
+  destruct (Z.ltb_spec ki 0) as [L|L]; cbn [orb] in H.
+  { apply is_zero_sound in H. destruct H as (q & -> & E). exists q. split; [reflexivity|]. split; [|intros _; exact E].
+    apply Qabs_eq0_le; [|apply tol_abs_nonneg]. rewrite E. symmetry. apply bin_prob_out. lia. }
+  destruct (Z.ltb_spec n ki) as [L2|L2].
+  { apply is_zero_sound in H. destruct H as (q & -> & E). exists q. split; [reflexivity|]. split; [|intros _; exact E].
+    apply Qabs_eq0_le; [|apply tol_abs_nonneg]. rewrite E. symmetry. apply bin_prob_out. lia. }
+  destruct (epmf_encl_sound ki ltac:(lia)) as [B1 B2].
+  destruct (encl_close_sound _ _ (pr ki) H B1 B2) as (q & -> & A).
+  exists q. split; [reflexivity|]. split; [exact A|intros [?|?]; lia].
+Qed.
+Lemma ecdf_ok_b_sound ki cd : ecdf_ok_b n m flip ki cd = true -> cdf_obs_ok pr 0 n ki cd.
+Proof.
+  unfold ecdf_ok_b. intro H.
+  destruct (Z.ltb_spec ki 0) as [L|L].
+  { apply is_zero_sound in H. destruct H as (q & -> & E). exists q. split; [reflexivity|].
+    split; [|split; [intros _; exact E|intros ?; lia]].
+    apply Qabs_eq0_le; [|apply tol_abs_nonneg]. rewrite E. symmetry. unfold cdf_sum. apply Qsum_range_empty. lia. }
+  destruct (Z.leb_spec n ki) as [L2|L2].
+  { apply is_one_sound in H. destruct H as (q & -> & E). exists q. split; [reflexivity|].
+    split; [|split; [intros ?; lia|intros _; exact E]].
+    apply Qabs_eq0_le; [|apply tol_abs_nonneg]. rewrite E. symmetry. apply bin_cdf_top. exact L2. }
+  destruct (ecdf_encl_sound ki ltac:(lia)) as [B1 B2].
+  destruct (encl_close_sound _ _ (cdf_sum pr 0 ki) H B1 B2) as (q & -> & A).
+  exists q. split; [reflexivity|]. split; [exact A|split; intros ?; lia].
+Qed.
+
+Lemma run_items_e_sound : forall items idx tag tag',
+  run_items_e n p m flip items idx tag = (tag', None) -> Forall (item_ok pr 0 n) items.
+Proof.
+  induction items as [|[[kb pb] cb] rest IH]; intros idx tag tag' R; [constructor|].
+  cbn [run_items_e] in R. destruct (decode_bits kb) as [| |k] eqn:Ek; try discriminate R. cbv zeta in R.
+  destruct (epmf_ok_b n m flip (Qfloor k) (decode_bits pb)) eqn:P; cbn [negb] in R; [|discriminate R].
+  destruct (ecdf_ok_b n m flip (Qfloor k) (decode_bits cb)) eqn:C; cbn [negb] in R; [|discriminate R].
+  constructor; [|exact (IH _ _ _ R)].
+  cbn. exists k. split; [exact Ek|]. split; [apply epmf_ok_b_sound; exact P | apply ecdf_ok_b_sound; exact C].
+Qed.
+End EnclItems.
+
+Lemma encl_side_n n p flip : encl_side n p = Some flip -> (1 <= n)%Z.
+Proof.
+  unfold encl_side. destruct (encl_applies n p (Qden p)) eqn:A; [intros _; exact (encl_applies_n _ _ _ A)|].
+  destruct (encl_applies n (1 - p) (Qden p)) eqn:B; [intros _; exact (encl_applies_n _ _ _ B)|discriminate].
+Qed.
+
+(* the enclosures as a statement about the exact probabilities, for EVERY n >= 1 and 0 <= p <= 1 (the
+   comparator uses them only where they are tight); their width is eps = n (n-1) m^2 *)
+Theorem binom_enclosure n p (flip : bool) : (1 <= n)%Z -> 0 <= p <= 1 ->
+  let m := if flip then 1 - p else p in
+  (forall ki, (0 <= ki <= n)%Z ->
+     fst (epmf_encl n m flip ki) <= bin_prob n p ki /\ bin_prob n p ki <= snd (epmf_encl n m flip ki)) /\
+  (forall ki, (0 <= ki < n)%Z ->
+     fst (ecdf_encl n m flip ki) <= Qsum_range (bin_prob n p) 0 ki /\
+     Qsum_range (bin_prob n p) 0 ki <= snd (ecdf_encl n m flip ki)).
+Proof.
+  intros Hn Hp. cbv zeta. split; intros ki Hk.
+  - exact (epmf_encl_sound n p flip Hn Hp ki Hk).
+  - exact (ecdf_encl_sound n p flip Hn Hp ki Hk).
+Qed.
+Theorem encl_width n m flip ki :
+  snd (epmf_encl n m flip ki) - fst (epmf_encl n m flip ki) == encl_eps n m /\
+  snd (ecdf_encl n m flip ki) - fst (ecdf_encl n m flip ki) == encl_eps n m.
+Proof.
+  unfold epmf_encl, ecdf_encl, encl_flip, encl_pmf, encl_cdf. cbv zeta. split.
+  - destruct (Z.eqb _ 0); [|destruct (Z.eqb _ 1)]; cbn [fst snd]; ring.
+  - destruct flip; destruct (Z.eqb _ 0); cbn [fst snd]; ring.
+Qed.
+(* the mode is entered only with n >= 1 and eps <= 1e-12 *)
+Theorem encl_side_spec n p (flip : bool) : encl_side n p = Some flip ->
+  (1 <= n)%Z /\ encl_eps n (if flip then 1 - p else p) <= 1 # 1000000000000.
+Proof.
+  intro H. split; [exact (encl_side_n _ _ _ H)|]. unfold encl_side in H.
+  assert (A : forall m d, encl_applies n m d = true -> encl_eps n m <= 1 # 1000000000000).
+  { intros m d E. unfold encl_applies in E. apply andb_prop in E. destruct E as [_ E]. apply Qle_bool_iff in E. exact E. }
+  destruct (encl_applies n p (Qden p)) eqn:E1.
+  - injection H as <-. exact (A _ _ E1).
+  - destruct (encl_applies n (1 - p) (Qden p)) eqn:E2; [|discriminate H]. injection H as <-. exact (A _ _ E2).
+Qed.
+
+Lemma finish_e_accepted n p flip hdr items c tag pos diag :
+  finish_e n p flip hdr items = verdict c tag pos diag -> (c = 0 \/ c = 1)%Z ->
+  first_false hdr = None /\ exists tag', run_items_e n p (if flip then 1 - p else p) flip items 0%Z 0%Z = (tag', None).
+Proof.
+  unfold finish_e. intros H Hc.
+  destruct (first_false hdr) as [i|].
+  { apply verdict_inj in H. unfold V_MISMATCH in H. lia. }
+  split; [reflexivity|].
+  destruct (run_items_e n p (if flip then 1 - p else p) flip items 0%Z 0%Z) as [tg [[[idx w] dg]|]]; [|eauto].
+  destruct (w =? 3)%Z; apply verdict_inj in H; unfold V_MALFORMED, V_MISMATCH in H; lia.
+Qed.
+
+
 (* ====================== verdicts ====================== *)
 Lemma finish_accepted d t hdr items c tag pos diag :
   finish d t hdr items = verdict c tag pos diag -> (c = 0 \/ c = 1)%Z ->
@@ -284,7 +482,23 @@ Proof.
   cbn [check_case]. intros H Hc.
   destruct (bin_valid c) eqn:V; cbn [negb] in H; [|apply verdict_inj in H; unfold V_MALFORMED in H; lia].
   apply bin_valid_sound in V. destruct V as [Hn Hp].
-  apply finish_accepted in H; [|exact Hc]. destruct H as [Hh [tag' R]].
+  assert (HR : first_false (bin_hdr c) = None /\ Forall (item_ok (bin_prob (b_n c) (b_p c)) 0 (b_n c)) (b_items c)).
+  { destruct (encl_side (b_n c) (b_p c)) as [flip|] eqn:ES.
+    - apply finish_e_accepted in H; [|exact Hc]. destruct H as [Hh [tag' R]]. split; [exact Hh|].
+      exact (run_items_e_sound (b_n c) (b_p c) flip (encl_side_n _ _ _ ES) Hp _ _ _ _ R).
+    - apply finish_accepted in H; [|exact Hc]. destruct H as [Hh [tag' R]]. split; [exact Hh|].
+      destruct (binom_table_bounds (b_n c) (b_p c)) as [B1 B2].
+      pose proof (run_items_sound (DBin (b_n c) (b_p c)) (binom_table (b_n c) (b_p c)) (bin_prob (b_n c) (b_p c))) as S.
+      rewrite B1, B2 in S. eapply S; [| | | |exact R].
+      + intros ki obs Hk T. rewrite bin_prob_model by exact Hn.
+        apply (binom_tab_close_pmf (b_n c) (b_p c) Hn Hp ki obs); [rewrite B1, B2; exact Hk|]. rewrite B1. exact T.
+      + intros ki obs Hk T. rewrite bin_cdf_model by exact Hn.
+        apply (binom_tab_close_cdf (b_n c) (b_p c) Hn Hp ki obs); [rewrite B1, B2; lia|]. rewrite B1. exact T.
+      + intros ki Hk. unfold bin_prob. destruct (Z.ltb_spec ki 0); [reflexivity|].
+        destruct (Z.ltb_spec (b_n c) ki); [reflexivity|lia].
+      + intros ki Hk. rewrite bin_cdf_model by exact Hn. unfold binom_cdf_i.
+        destruct (Z.ltb_spec ki 0); [lia|]. destruct (Z.leb_spec (b_n c) ki); [reflexivity|lia]. }
+  clear H. destruct HR as [Hh HF].
   unfold bin_hdr, binom_normal_approx in Hh. cbv beta iota zeta in Hh.
   apply first_false_none7 in Hh. destruct Hh as (M & V & Mu & Sg & Lo & Hi & St).
   unfold bin_case_ok. cbv zeta.
@@ -300,17 +514,7 @@ Proof.
            exists s. split; [reflexivity|]. exact Sg. }
   split; [apply xis_sound in Lo; exact Lo|]. split; [apply xis_sound in Hi; exact Hi|].
   split; [apply xis_sound in St; exact St|].
-  destruct (binom_table_bounds (b_n c) (b_p c)) as [B1 B2].
-  pose proof (run_items_sound (DBin (b_n c) (b_p c)) (binom_table (b_n c) (b_p c)) (bin_prob (b_n c) (b_p c))) as S.
-  rewrite B1, B2 in S. eapply S; [| | | |exact R].
-  - intros ki obs Hk T. rewrite bin_prob_model by exact Hn.
-    apply (binom_tab_close_pmf (b_n c) (b_p c) Hn Hp ki obs); [rewrite B1, B2; exact Hk|]. rewrite B1. exact T.
-  - intros ki obs Hk T. rewrite bin_cdf_model by exact Hn.
-    apply (binom_tab_close_cdf (b_n c) (b_p c) Hn Hp ki obs); [rewrite B1, B2; lia|]. rewrite B1. exact T.
-  - intros ki Hk. unfold bin_prob. destruct (Z.ltb_spec ki 0); [reflexivity|].
-    destruct (Z.ltb_spec (b_n c) ki); [reflexivity|lia].
-  - intros ki Hk. rewrite bin_cdf_model by exact Hn. unfold binom_cdf_i.
-    destruct (Z.ltb_spec ki 0); [lia|]. destruct (Z.leb_spec (b_n c) ki); [reflexivity|lia].
+  exact HF.
 Qed.
 
 (* ---------- hypergeometric ---------- *)
